@@ -275,6 +275,8 @@ def mon_C17_twin(s):
     r = first.play({"op": "rerun", "reqs": []})
     if monitors.raised(r):
         return []
+    picked = (r.get("state") or {}).get("reruns") or [None]
+    nothing_picked = picked[-1] == []      # D8: an accepted rerun with nothing to re-execute
     first.all_succeed = True
     try:
         first.run(continue_from=True)
@@ -282,7 +284,8 @@ def mon_C17_twin(s):
         return [_viol(s, first, "rerun continuation raised %s" % type(e).__name__)]
     a, b = first.summary(), clean.summary()
     if a["status"] != b["status"]:
-        return [_viol(s, first, "after a successful rerun the status is %s, a clean run ends %s" % (a["status"], b["status"]))]
+        return [_viol(s, first, "after a successful rerun the status is %s, a clean run ends %s" % (a["status"], b["status"]),
+                      "D8" if nothing_picked and a["status"] == "resuming" else None)]
     if a["status"] == "succeeded" and a["output"] != b["output"]:
         return [_viol(s, first, "after a successful rerun the output is %s, a clean run gives %s" % (a["output"], b["output"]))]
     # nothing that had completed elsewhere is repeated: a task that succeeded before the rerun and
